@@ -62,12 +62,42 @@ def is_simple_known(v):
     return bool(qt) and qt != UNKNOWN
 
 
+# legacy spellings (data only; the rewriting itself is re-done here, not by barril's function)
+LEGACY_TO_CURRENT = [
+    ("1000ft3", "Mcf"),
+    ("1000m3", "Mm3"),
+    ("M(ft3)", "MMcf"),
+    ("M(m3)", "MMm3"),
+    ("k(ft3)", "Mcf"),
+    ("Ns/m", "N.s/m"),
+    ("lbmole", "lbmol"),
+    ("gmole", "gmol"),
+]
+
+
+def current_spelling(unit):
+    if not isinstance(unit, str):
+        return unit
+    for legacy, current in LEGACY_TO_CURRENT:
+        unit = unit.replace(legacy, current)
+    return unit
+
+
+def unit_type(unit):
+    """Quantity type owning `unit` (given in its current or in a legacy spelling), else None."""
+    db = _db()
+    qt = db.GetQuantityType(unit)
+    if qt is None and isinstance(unit, str):
+        qt = db.GetQuantityType(current_spelling(unit))
+    return qt
+
+
 def foreign_unit(v, unit):
     """True iff `unit` is a registered unit of another quantity type than simple object v's."""
     if not is_simple_known(v):
         return False
     db = _db()
-    qt_u = db.GetQuantityType(unit)
+    qt_u = unit_type(unit)
     if qt_u is None or qt_u == UNKNOWN:
         return False
     return qt_u != quantity_of(v).GetQuantityType()
@@ -78,7 +108,7 @@ def foreign_cat_unit(category, unit):
     if not db.IsValidCategory(category):
         return False
     qt_c = db.GetCategoryQuantityType(category)
-    qt_u = db.GetQuantityType(unit)
+    qt_u = unit_type(unit)
     if qt_u is None or qt_c == UNKNOWN or qt_u == UNKNOWN:
         return False
     return qt_c != qt_u
